@@ -8,8 +8,8 @@ IDS=${@:-$(ls seeded | grep '^C')}
 OUT=seeded/RESULTS.txt; : > $OUT.tmp
 for id in $IDS; do
   pid=${id%%-*}
-  if ! git -C /repo apply --check seeded/$id/patch.diff 2>/dev/null; then echo "$id patch-does-not-apply-at-HEAD" | tee -a $OUT.tmp; continue; fi
-  git -C /repo apply seeded/$id/patch.diff
+  if ! git -C /repo apply --check /verif/seeded/$id/patch.diff 2>/dev/null; then echo "$id patch-does-not-apply-at-HEAD" | tee -a $OUT.tmp; continue; fi
+  git -C /repo apply /verif/seeded/$id/patch.diff
   t0=$(date +%s)
   ./check.py $pid --tier quick > /tmp/seeded_$id.log 2>&1; rc=$?
   first=$(grep -m1 '^VIOLATION' /tmp/seeded_$id.log | cut -c1-160)
